@@ -37,8 +37,19 @@ func (r *abort2) StoreBroadcastMessage(msg round.Message) error {
 		return round.ErrInvalidContent
 	}
 
+	if body.YHat == nil || body.KProof == nil || body.KProof.Plaintext == nil {
+		return round.ErrNilFields
+	}
+	// exactly one proof for every other party is needed, by Finalize as well
 	alphas := make(map[party.ID]curve.Scalar, len(body.ChiProofs))
-	for id, chiProof := range body.ChiProofs {
+	for _, id := range r.PartyIDs() {
+		if id == from {
+			continue
+		}
+		chiProof := body.ChiProofs[id]
+		if chiProof == nil || chiProof.Plaintext == nil {
+			return round.ErrNilFields
+		}
 		alphas[id] = r.Group().NewScalar().SetNat(chiProof.Plaintext.Mod(r.Group().Order()))
 	}
 	r.ChiAlphas[from] = alphas
@@ -58,8 +69,8 @@ func (r *abort2) StoreBroadcastMessage(msg round.Message) error {
 		return errors.New("failed to verify validity of k")
 	}
 
-	for id, chiProof := range body.ChiProofs {
-		if !chiProof.Verify(r.HashForID(from), public, r.ChiCiphertext[id][from]) {
+	for id := range alphas {
+		if !body.ChiProofs[id].Verify(r.HashForID(from), public, r.ChiCiphertext[id][from]) {
 			return errors.New("failed to validate Delta MtA Nth proof")
 		}
 	}
